@@ -33,6 +33,7 @@ import (
 	k8sruntime "k8s.io/apimachinery/pkg/runtime"
 	"k8s.io/apimachinery/pkg/runtime/schema"
 	"k8s.io/apimachinery/pkg/watch"
+	"k8s.io/client-go/dynamic"
 	dynamicfake "k8s.io/client-go/dynamic/fake"
 	clienttesting "k8s.io/client-go/testing"
 	"k8s.io/klog/v2"
@@ -1610,5 +1611,164 @@ func init() {
 			return nil, err
 		}
 		return runUnschedCase(in), nil
+	}})
+}
+
+// ---------------------------------------------------------------------------------------------------------------------
+// domain watcher-late: the watcher is cancelled while an informer is in the middle of a paginated LIST (the API server hands
+// out pages slowly).  Once the event channel has closed no further request may reach the server: every call the informers
+// make must be made under a context that ends with the watcher's.  The dynamic client is wrapped so that LIST honours the
+// context it is given (as a real HTTP client does: a call under an ended context never reaches the server) and pages.
+
+type lateIn struct {
+	Scope    string `json:"scope"`
+	Pages    int    `json:"pages"`    // pages of the pod LIST
+	CancelAt int    `json:"cancelAt"` // the context is cancelled when this page has been requested
+}
+
+type lateOut struct {
+	Panic     bool `json:"panic"`
+	Closed    bool `json:"closed"`
+	LateLists int  `json:"lateLists"` // LIST page requests that reached the server after the channel had closed
+}
+
+type pagingClient struct {
+	dynamic.Interface
+	st *pagingState
+}
+type pagingState struct {
+	mu       sync.Mutex
+	pages    int
+	served   int
+	onPage   func(n int)
+	closedAt time.Time
+	late     int
+}
+type pagingRes struct {
+	dynamic.NamespaceableResourceInterface
+	st  *pagingState
+	gvr schema.GroupVersionResource
+}
+type pagingNsRes struct {
+	dynamic.ResourceInterface
+	st  *pagingState
+	gvr schema.GroupVersionResource
+}
+
+func (c *pagingClient) Resource(gvr schema.GroupVersionResource) dynamic.NamespaceableResourceInterface {
+	return &pagingRes{NamespaceableResourceInterface: c.Interface.Resource(gvr), st: c.st, gvr: gvr}
+}
+func (r *pagingRes) Namespace(ns string) dynamic.ResourceInterface {
+	return &pagingNsRes{ResourceInterface: r.NamespaceableResourceInterface.Namespace(ns), st: r.st, gvr: r.gvr}
+}
+func (r *pagingRes) List(ctx context.Context, o metav1.ListOptions) (*unstructured.UnstructuredList, error) {
+	return r.st.list(ctx, r.gvr, o, func() (*unstructured.UnstructuredList, error) { return r.NamespaceableResourceInterface.List(ctx, o) })
+}
+func (r *pagingNsRes) List(ctx context.Context, o metav1.ListOptions) (*unstructured.UnstructuredList, error) {
+	return r.st.list(ctx, r.gvr, o, func() (*unstructured.UnstructuredList, error) { return r.ResourceInterface.List(ctx, o) })
+}
+
+func (s *pagingState) list(ctx context.Context, gvr schema.GroupVersionResource, o metav1.ListOptions, inner func() (*unstructured.UnstructuredList, error)) (*unstructured.UnstructuredList, error) {
+	if gvr.Resource != "pods" {
+		return inner()
+	}
+	if ctx.Err() != nil {
+		return nil, ctx.Err() // never reaches the server
+	}
+	s.mu.Lock()
+	s.served++
+	n := s.served
+	if !s.closedAt.IsZero() {
+		s.late++
+	}
+	cb := s.onPage
+	s.mu.Unlock()
+	if cb != nil {
+		cb(n)
+	}
+	select { // a slow page
+	case <-time.After(20 * time.Millisecond):
+	case <-ctx.Done():
+		return nil, ctx.Err()
+	}
+	l, err := inner()
+	if err != nil {
+		return l, err
+	}
+	if n < s.pages {
+		l.SetContinue(fmt.Sprintf("page-%d", n+1))
+	}
+	return l, nil
+}
+
+func runLateCase(in lateIn) (out lateOut) {
+	defer func() {
+		if r := recover(); r != nil {
+			out.Panic = true
+		}
+	}()
+	cl := newCluster([]kindInfo{kPod, kCM, kSvc, kDep, kRS, kNS})
+	ctx, cancel := context.WithCancel(context.Background())
+	defer cancel()
+	st := &pagingState{pages: in.Pages}
+	st.onPage = func(n int) {
+		if n == in.CancelAt {
+			cancel()
+		}
+	}
+	strat := watcher.RESTScopeNamespace
+	if in.Scope == "root" {
+		strat = watcher.RESTScopeRoot
+	}
+	w := watcher.NewDefaultStatusWatcher(&pagingClient{Interface: cl.client, st: st}, cl.mapper)
+	ch := w.Watch(ctx, object.ObjMetadataSet{objSpec{kPod, "ns1", "a"}.id(), objSpec{kCM, "ns1", "c"}.id()}, watcher.Options{RESTScopeStrategy: strat})
+	done := make(chan struct{})
+	go func() {
+		defer close(done)
+		for range ch {
+		}
+	}()
+	select {
+	case <-done:
+		out.Closed = true
+	case <-time.After(6 * time.Second):
+		cancel() // (already cancelled by the page hook; the channel simply never closed)
+	}
+	st.mu.Lock()
+	st.closedAt = time.Now()
+	st.mu.Unlock()
+	time.Sleep(400 * time.Millisecond) // pages are 20 ms apart: an informer that lists on would show up many times over
+	st.mu.Lock()
+	out.LateLists = st.late
+	st.mu.Unlock()
+	return out
+}
+
+func genLate(out *proto.Out, _ *proto.Rng, _ string) {
+	var ins []lateIn
+	for _, scope := range []string{"root", "ns"} {
+		for _, c := range []int{1, 2, 5} {
+			ins = append(ins, lateIn{Scope: scope, Pages: 40, CancelAt: c})
+		}
+	}
+	res := make([]lateOut, len(ins))
+	var wg sync.WaitGroup
+	for i := range ins {
+		wg.Add(1)
+		go func(i int) { defer wg.Done(); res[i] = runLateCase(ins[i]) }(i)
+	}
+	wg.Wait()
+	for i := range ins {
+		out.Emit("watcher-late", ins[i], res[i])
+	}
+}
+
+func init() {
+	register("watcher-late", domain{gen: genLate, run: func(raw json.RawMessage) (any, error) {
+		var in lateIn
+		if err := json.Unmarshal(raw, &in); err != nil {
+			return nil, err
+		}
+		return runLateCase(in), nil
 	}})
 }
